@@ -108,7 +108,7 @@ prop('C03',
                  'sensitivities is that score.')
 
 prop('C05',
-     [ndim.r05_1, popmodels.r05_2, cursors.r05_4],
+     [ndim.r05_1, popmodels.r05_2, cursors.r05_4, layout.r05_3],
      undecided=['numerical values at boundary points', '-inf vs nan'],
      assumptions=TERM_ASSUME,
      technique='AST rule over rank-dispatch chains + term algebra on the '
